@@ -27,7 +27,7 @@ from ..policy import handler_variant, union_variant
 NONE = "__none__"
 
 
-def handler_cfg(emit=False, mids='{"element", "wrapper", "union"}'):
+def handler_cfg(emit=False, mids='{"element", "wrapper", "union", "wildModel"}'):
     out = (f'SPECIFICATION Spec\nCONSTANTS\n  WrapperPolicy = "{handler_variant()}"\n  UnionPolicy = "{union_variant()}"\n  MidKinds = {mids}\n  Pfxs = {{"p", ""}}\n')
     return out + ("CONSTRAINT Emit\n" if emit else "INVARIANT PumpsAgree\n") + "CHECK_DEADLOCK FALSE\n"
 
